@@ -370,6 +370,17 @@ func (r *c16Run) runMapBatch(s *apih.Server, c c16Case) {
 			break
 		}
 	}
+	// the same reverse lookup once more: the answer must not depend on what an earlier lookup left behind
+	if back2, err := mm.MapUUIDsToStrings(ctx, u...); err != nil || len(back2) != len(in) {
+		r.bad(c, "mapbatch:MapUUIDsToStrings:repeat:error", "second reverse lookup of the same %d ids: %d results, err=%v", len(in), len(back2), err)
+	} else {
+		for i := range in {
+			if back2[i] != in[i] {
+				r.bad(c, "mapbatch:MapUUIDsToStrings:repeat:position", "the SECOND reverse lookup of the same %d ids (%s, %d distinct): position %d holds %s, want %s (the first lookup was right)", len(in), c.Pattern, c16Distinct(in), i, c16Clip(back2[i]), c16Clip(in[i]))
+				break
+			}
+		}
+	}
 	// a reverse lookup over several lookup pages with ONE failing statement (every statement in turn): an error,
 	// or the right names - a failed page must not come back as empty names
 	if c.Pattern == "none" && (c.N == 150 || c.N == 250) {
